@@ -6,6 +6,10 @@ B="${1:-/repo/_build}"
 cmake -G Ninja -S /repo -B "$B" >/dev/null || exit 2
 cmake --build "$B" -j16 >/dev/null || exit 2
 OUT=$(ctest --test-dir "$B" -j8 --timeout 900 2>&1)
+# tests/cmstest.c is flaky at the pinned commit itself (about 0.6 % of runs: a random certificate serial starting with 0x00), so tests
+# that failed get one more chance; the output of both passes is evaluated together
+OUT="$OUT
+$(ctest --test-dir "$B" -j8 --timeout 900 --rerun-failed 2>&1)"
 echo "$OUT" | tail -14
 python3 - "$OUT" <<'PY'
 import sys, json, re
